@@ -115,6 +115,7 @@ type Result struct {
 	FocusPreempts int64
 	Yields        int64
 	SimTime       time.Duration
+	IdleWait      time.Duration // fake time spent waiting only to declare a deadlock
 	TaskNames     []string
 	MapCalls      int64
 	MapPermuted   int64
@@ -545,7 +546,7 @@ func Run(cfg Config, setup func(s *Sim)) *Result {
 		s.wg.Wait()
 	}
 	cur.Store(nil)
-	s.res.SimTime = time.Since(t0)
+	s.res.SimTime = time.Since(t0) - s.res.IdleWait
 	s.collect()
 	return s.res
 }
@@ -682,6 +683,7 @@ func (s *Sim) schedule() {
 				continue
 			case <-timer.C:
 				res.Outcome = OutDeadlock
+				res.IdleWait += s.cfg.DeadlockAfter
 				return
 			}
 		}
